@@ -77,6 +77,7 @@ func concurrentStoresCrash(c *engine.Ctx) {
 							func() { res[1] = doStore(dir, docVariant(sc.D1, "a"), false) },
 						}
 					}, func(x *sched.Exec) bool {
+						t.Alive()
 						vfs.Hook = nil
 						reached := vfs.Frozen()
 						steps := len(vfs.Log())
